@@ -3,12 +3,13 @@
 # Confirms the seeded change independently in a scratch worktree (tests still pass, demo fails with / passes without),
 # then runs the registered checks against /repo with the patch applied, reverts, and files the result under /verif/seeded/<name>/.
 D=$1; NAME=$2; shift 2
+S=${MUT_SUFFIX:-}
 WT=/tmp/wt_eval_$NAME
 OUT=/verif/seeded/$NAME
 mkdir -p $OUT
 git -C /repo worktree remove --force $WT 2>/dev/null
 git -C /repo worktree add --detach $WT HEAD -q
-export CARGO_TARGET_DIR=/tmp/wt_eval_target CARGO_NET_OFFLINE=true
+export CARGO_TARGET_DIR=/tmp/wt_eval_target$S CARGO_NET_OFFLINE=true
 cp $D/demo.rs $WT/lymui/tests/demo.rs 2>/dev/null || { mkdir -p $WT/lymui/tests; cp $D/demo.rs $WT/lymui/tests/demo.rs; }
 ( cd $WT && cargo test --offline -p lymui --test demo 2>&1 | grep -E "^test result|error" | head -3 ) > $OUT/demo_clean.txt
 git -C $WT apply $D/patch.diff || echo "PATCH DOES NOT APPLY" >> $OUT/demo_clean.txt
@@ -20,11 +21,11 @@ cp $D/patch.diff $D/demo.rs $D/meta.json $OUT/
 # /repo nor /verif/lean/LymuiVerif/Gen is disturbed (equivalent to `git -C /repo apply` + run + `git -C /repo checkout -- .`)
 unset CARGO_TARGET_DIR
 /verif/tools/mutcopy.sh > /dev/null
-git -C /tmp/repo_mut apply $D/patch.diff || { echo "patch does not apply"; exit 2; }
+git -C /tmp/repo_mut$S apply $D/patch.diff || { echo "patch does not apply"; exit 2; }
 : > $OUT/checks.txt
 for id in "$@"; do
   echo "--- ./check $id --tier quick" >> $OUT/checks.txt
-  ( cd /tmp/verif_mut && VERIF_REPO=/tmp/repo_mut timeout 3000 ./check $id --tier quick 2>&1 | tail -8 | sed 's#/tmp/verif_mut#/verif#g' ) >> $OUT/checks.txt
+  ( cd /tmp/verif_mut$S && VERIF_REPO=/tmp/repo_mut$S timeout 3000 ./check $id --tier quick 2>&1 | tail -8 | sed "s#/tmp/verif_mut$S#/verif#g" ) >> $OUT/checks.txt
 done
-git -C /tmp/repo_mut checkout -- .
+git -C /tmp/repo_mut$S checkout -- .
 echo "== $NAME"; echo -n "demo on clean tree:   "; cat $OUT/demo_clean.txt; echo -n "suite with patch:     "; cat $OUT/suite_patched.txt; echo -n "demo with patch:      "; cat $OUT/demo_patched.txt; grep -E "^---|VIOLATION|^OK" $OUT/checks.txt
